@@ -24,6 +24,7 @@ import (
 	"harness/sim"
 
 	"github.com/welllog/golib/cryptz"
+	"github.com/welllog/golib/zzsim/core"
 	"github.com/welllog/golib/zzsim/scrand"
 )
 
@@ -360,6 +361,7 @@ func (w *world) inputsIntact(p0, s0, a0 []byte, site string) *sim.Violation {
 }
 
 func exec(c *sim.Case, out *sim.WorkerOut) (*sim.Violation, bool) {
+	core.EnvSeed(c.EnvSeed ^ 0x5eed) // the entropy bytes of this case depend on the case alone (replayable)
 	w := &world{c: c, out: out, dg: engc.NewDigest(), r: sim.NewRng(c.EnvSeed), stats: map[string]int{}}
 	p := c.Params
 	w.plain = w.r.Bytes(p["plen"])
